@@ -4,6 +4,7 @@ package mon
 import (
 	"fmt"
 	"reflect"
+	"sort"
 
 	"github.com/brocaar/lorawan"
 
@@ -172,6 +173,10 @@ type dataCase struct {
 	FPending bool
 	ClassB   bool
 	portKind string
+	// Cuts, when set, makes Lib() hand the application payload over as several
+	// DataPayload items (cut points into Spec.FRMPayload; an item may be empty).
+	// FRM stays the canonical single-item view that decoders produce.
+	Cuts []int
 }
 
 type dataGenOpts struct {
@@ -250,6 +255,9 @@ func genDataCase(r *core.RNG, o dataGenOpts) dataCase {
 	}
 
 	maxFRM := o.maxFRM - fl
+	if o.maxFRM == 242 && r.Chance(1, 4) {
+		maxFRM = 242 // FOpts and a full-size FRMPayload together (the property bounds them independently)
+	}
 	switch pk {
 	case 0:
 		d.Spec.FPort = -1
@@ -287,6 +295,12 @@ func genDataCase(r *core.RNG, o dataGenOpts) dataCase {
 			b := r.Bytes(n)
 			d.Spec.FRMPayload = b
 			d.FRM = []lorawan.Payload{&lorawan.DataPayload{Bytes: append([]byte{}, b...)}}
+			if r.Chance(1, 6) {
+				for k := 1 + r.Intn(3); k > 0; k-- {
+					d.Cuts = append(d.Cuts, r.Intn(n+1))
+				}
+				sort.Ints(d.Cuts)
+			}
 		}
 	}
 	return d
@@ -323,6 +337,14 @@ func (d dataCase) Lib() lorawan.PHYPayload {
 		mp.FPort = &p
 	}
 	mp.FRMPayload = clonePayloads(d.FRM)
+	if len(d.Cuts) > 0 && !d.FRMIsMAC {
+		mp.FRMPayload = nil
+		prev := 0
+		for _, c := range append(append([]int{}, d.Cuts...), len(d.Spec.FRMPayload)) {
+			mp.FRMPayload = append(mp.FRMPayload, &lorawan.DataPayload{Bytes: append([]byte{}, d.Spec.FRMPayload[prev:c]...)})
+			prev = c
+		}
+	}
 	return lorawan.PHYPayload{
 		MHDR:       lorawan.MHDR{MType: lorawan.MType(d.Spec.MType), Major: lorawan.Major(d.Spec.Major)},
 		MACPayload: mp,
